@@ -39,6 +39,25 @@ def replay_all(repo, by_ob, scratch, log):
     exprs += ["pi", "e", "epsilon", "(pi * 2)", "(e + 1)"]
     for i, t in enumerate(exprs):
         lines.append("t(%d) :- catch(X is %s, error(E, _), X = err(E)), T = %s, catch(Y is T, error(F, _), Y = err(F)), cmp(%d, T, X, Y)." % (i, t, t, i))
+    # operands that exist only as COMPUTED values: the smallest / largest small integer held in a small-integer cell
+    # (the reader makes the literal -36028797018963968 a big integer), and the first big integer reached by an addition
+    CV = ["(-36028797018963967 - 1)", "(36028797018963966 + 1)", "(36028797018963967 + 1)", "(3 - 1)"]
+    BIN2 = ["+", "-", "*", "//", "div", "mod", "rem", "max", "min", "gcd", "/\\", "\\/", "xor", ">>", "<<"]
+    comp = []
+    for op in UN:
+        for a in CV:
+            comp.append(("A is %s" % a, term(op, ["A"])))
+    for op in BIN2:
+        for a in CV:
+            for b in (["1", "2"] if op in (">>", "<<") else ["(-1)", "2", "A"]):
+                comp.append(("A is %s" % a, term(op, ["A", b])))
+                if op not in (">>", "<<") and b != "A":
+                    comp.append(("A is %s" % a, term(op, [b, "A"])))
+    base_n = len(exprs)
+    for k, (pre, t) in enumerate(comp):
+        i = base_n + k
+        lines.append("t(%d) :- %s, catch(X is %s, error(E, _), X = err(E)), T = %s, catch(Y is T, error(F, _), Y = err(F)), cmp(%d, T, X, Y)." % (i, pre, t, t, i))
+    exprs = exprs + ["%s, X is %s" % c for c in comp]
     lines.append("main :- between(0, %d, I), catch(t(I), _, true), fail." % (len(exprs) - 1))
     lines.append("main :- halt.")
     lines.append(":- use_module(library(between)).")
@@ -51,6 +70,29 @@ def replay_all(repo, by_ob, scratch, log):
         m = re.match(r"MISMATCH (\d+) (.*) compiled=(.*) runtime=(.*)$", line)
         if m:
             fails.append({"goal": "X is " + m.group(2), "got": ["runtime", m.group(4)], "expected": ["compiled", m.group(3)], "op": m.group(2), "a": None, "b": None})
+    if p.returncode != 0 and not fails:
+        # the process died (panic): find the expressions that kill it, one process each (computed-operand phase only)
+        clause = dict((int(re.match(r"t\((\d+)\)", l).group(1)), l) for l in lines if l.startswith("t("))
+        def dies(idx):
+            one = os.path.join(scratch, "replay_paths_one.pl")
+            body = [clause[i] for i in idx] + ["main :- member(I, %s), catch(t(I), _, true), fail." % list(idx), "main :- halt.", ":- use_module(library(lists)).", ":- initialization(main)."]
+            open(one, "w").write("\n".join(lines[:3] + body) + "\n")
+            q = subprocess.run([binary, "-f", "--no-add-history", one], capture_output=True, text=True, timeout=120, stdin=subprocess.DEVNULL)
+            return q.returncode != 0, (q.stderr or "")[-200:].strip()
+        todo = list(range(base_n, len(exprs)))
+        for c0 in range(0, len(todo), 32):
+            chunk = todo[c0:c0 + 32]
+            bad, _ = dies(chunk)
+            if not bad:
+                continue
+            for i in chunk:
+                b1, err = dies([i])
+                if b1:
+                    fails.append({"goal": exprs[i], "got": ["crash", err], "expected": ["v", "a number or an error term, the same on both paths"], "op": exprs[i], "a": None, "b": None})
+                    if len(fails) >= 3:
+                        break
+            if len(fails) >= 3:
+                break
     log.append("two-path replay: %d expressions, %d mismatches (exit %s)" % (len(exprs), len(fails), p.returncode))
     return {ob: fails for ob in by_ob}
 
